@@ -82,7 +82,7 @@ OFFS = ["zero", "x", "generic", "generic"]
 
 def workload(ctx):
     rng = ctx.rng(1)
-    for i in range(ctx.n(5000, 60000)):
+    for i in range(ctx.n(5000, 150000)):
         ts = TILT[i % len(TILT)]
         os_ = OFFS[(i // len(TILT)) % len(OFFS)]
         tilt = rng.uniform(-0.3, 0.3, 3)
@@ -103,7 +103,7 @@ def workload(ctx):
                       "lam": float(rng.uniform(0.1, 1.0)), "own_tilt": bool(i % 3 == 0)}
     from vfw import gen
     rng = ctx.rng(2)
-    for i in range(ctx.n(400, 6000)):
+    for i in range(ctx.n(400, 20000)):
         c, _ = gen.cell(rng, gen.CELL_STRATA[i % len(gen.CELL_STRATA)])
         yield "pipeline", {"cell": c, "hkl": gen.hkl(rng, 4), "lam": float(rng.uniform(0.1, 0.5)), "q": [float(x) for x in rng.normal(size=4)],
                            "tilts": [float(x) for x in rng.uniform(-0.3, 0.3, 2)], "tilt": [float(x) for x in rng.uniform(-0.3, 0.3, 3)],
